@@ -308,6 +308,15 @@ Definition yrun (s : sys) (ls : list lbl) : sys := fold_left ystep ls s.
    one read at setup *)
 Definition effective (s : sys) : N := last (y_queue s) (y_lpc s).
 
+(* the Stream loop of an initialised connection takes the queued push (requests queued for one
+   connection are merged and carry the newest context) and handles it: pushConnection /
+   pushConnectionDelta -> computeProxyState sets proxy.LastPushContext = request.Push, whether or not
+   the proxy watches anything yet.  Requests are answered from proxy.LastPushContext. *)
+Definition handle (s : sys) : sys :=
+  if Nat.eqb (y_pc s) 3
+  then mkSys (y_global s) (y_pc s) (effective s) (y_pending s) [] (y_post s) (y_missed s)
+  else s.
+
 (* the order of the setup steps as a list, for the source-order check of the harness *)
 Definition conn_program : list N := [1; 2; 3].   (* SetLPC; AddCon; InitProxy *)
 Definition push_program : list N := [4; 5].      (* initPushContext (commit); AdsPushAll (enumerate) *)
